@@ -23,6 +23,7 @@ func init() { families["connread"] = connReadFamily }
 // scriptConn is a net.Conn whose Read delivers exactly what the driver has let arrive, reports when the reader is
 // waiting on an empty socket, and lets a read deadline expire on demand.
 type scriptConn struct {
+	addr    string // remote address to report (default: unique per object)
 	mu      sync.Mutex
 	cond    *sync.Cond
 	buf     []byte
@@ -101,8 +102,13 @@ func (a fakeAddr) String() string  { return string(a) }
 var fakeAddrCtr uint64
 var fakeAddrMu sync.Mutex
 
-func (c *scriptConn) LocalAddr() net.Addr                { return fakeAddr("10.0.0.1:1") }
-func (c *scriptConn) RemoteAddr() net.Addr               { return fakeAddr(fmt.Sprintf("10.9.9.9:%p", c)) }
+func (c *scriptConn) LocalAddr() net.Addr { return fakeAddr("10.0.0.1:1") }
+func (c *scriptConn) RemoteAddr() net.Addr {
+	if c.addr != "" {
+		return fakeAddr(c.addr)
+	}
+	return fakeAddr(fmt.Sprintf("10.9.9.9:%p", c))
+}
 func (c *scriptConn) SetDeadline(t time.Time) error      { return nil }
 func (c *scriptConn) SetReadDeadline(t time.Time) error  { return nil }
 func (c *scriptConn) SetWriteDeadline(t time.Time) error { return nil }
@@ -201,6 +207,16 @@ func runConnRead(b Beh, seed int64) ([]J, error) {
 		wire = append(wire, sender.SealMessage(p)...)
 	}
 	sc := newScriptConn()
+	// an earlier connection of the same peer, from the same remote address, which the server has not closed yet
+	oldConn := newScriptConn()
+	oldConn.addr = sc.RemoteAddr().String()
+	old := hap.NewConnection(oldConn, connReadContext())
+	oldOpen := true
+	defer func() {
+		if oldOpen {
+			old.Close()
+		}
+	}()
 	hc, err := encryptedConnection(sc, shared)
 	if err != nil {
 		return nil, err
@@ -260,6 +276,11 @@ func runConnRead(b Beh, seed int64) ([]J, error) {
 		pending = ch
 		go func() {
 			buf := make([]byte, size)
+			defer func() {
+				if r := recover(); r != nil {
+					ch <- readResult{0, fmt.Errorf("panic: %v", r), buf}
+				}
+			}()
 			n, err := hc.Read(buf)
 			ch <- readResult{n, err, buf}
 		}()
@@ -297,6 +318,12 @@ func runConnRead(b Beh, seed int64) ([]J, error) {
 			arrive(s.X)
 		case "Read":
 			startRead(s.X, s.To)
+		case "OldClosed":
+			if oldOpen {
+				old.Close()
+				oldOpen = false
+			}
+			emit(J{"ev": "oldclosed"})
 		default:
 			return nil, fmt.Errorf("unknown action %q", s.A)
 		}
